@@ -196,8 +196,10 @@ def run(pid, tier="quick", seed=1, replay=None):
     t0 = time.time()
     sys.path.insert(0, os.path.join(VERIF, "checks"))
     mod = importlib.import_module(pid)
-    work = os.path.join(BUILD, "run", pid); os.makedirs(work, exist_ok=True)
-    ev_path = os.path.join(VERIF, "evidence", pid + ".json"); os.makedirs(os.path.dirname(ev_path), exist_ok=True)
+    # VERIF_SCRATCH redirects everything a run writes (used when trying seeded changes on a copy of the repository)
+    OUTROOT = os.environ.get("VERIF_SCRATCH") or VERIF
+    work = os.path.join(os.environ.get("VERIF_SCRATCH") or BUILD, "run", pid); os.makedirs(work, exist_ok=True)
+    ev_path = os.path.join(OUTROOT, "evidence", pid + ".json"); os.makedirs(os.path.dirname(ev_path), exist_ok=True)
     notes = []
     violations = []   # dicts: sig, msg, case, impl, model
     broken = []       # dicts describing broken theorem / correspondence
@@ -367,14 +369,14 @@ def run(pid, tier="quick", seed=1, replay=None):
         # the disagreeing cases themselves are the next best replay
     for l in known_lines: print(l)
     rc = 0
-    os.makedirs(os.path.join(VERIF, "replays"), exist_ok=True)
+    os.makedirs(os.path.join(OUTROOT, "replays"), exist_ok=True)
     if new_viol:
         v = min(new_viol, key=lambda v: len(v["case"]))
         h = hashlib.sha1((v["case"] + v["msg"]).encode()).hexdigest()[:10]
         rp = os.path.join("replays", f"{pid}-{h}.json")
         json.dump({"property": pid, "kind": "failing-input", "case": v["case"], "observed": v["impl"], "model": v.get("model", ""), "required": v["msg"], "signature": v["sig"],
                    "others": [{"case": w["case"][:300], "msg": w["msg"]} for w in new_viol[1:6]], "broken": broken[:3],
-                   "replay_cmd": f"bin/check {pid} --replay {rp}"}, open(os.path.join(VERIF, rp), "w"), indent=1)
+                   "replay_cmd": f"bin/check {pid} --replay {rp}"}, open(os.path.join(OUTROOT, rp), "w"), indent=1)
         print(f"VIOLATION property={pid} replay={rp}")
         print(f"  {v['msg']}\n  case: {v['case'][:300]}\n  observed: {v['impl'][:300]}")
         rc = 1
@@ -385,7 +387,7 @@ def run(pid, tier="quick", seed=1, replay=None):
         cases_r = [m["case"] for m in mism[:20]]
         json.dump({"property": pid, "kind": "no-longer-checks", "what_no_longer_checks": broken, "cases": cases_r,
                    "note": "no input on which the property itself fails was found; the listed theorem / correspondence no longer checks against the current source",
-                   "replay_cmd": f"bin/check {pid} --replay {rp}"}, open(os.path.join(VERIF, rp), "w"), indent=1, default=str)
+                   "replay_cmd": f"bin/check {pid} --replay {rp}"}, open(os.path.join(OUTROOT, rp), "w"), indent=1, default=str)
         print(f"VIOLATION property={pid} replay={rp} no-failing-input-found")
         print(f"  {b.get('kind')}: {b.get('what')}" + (f" ({b.get('file')}:{b.get('line')} {b.get('lemma')})" if b.get("file") else ""))
         if mism: print(f"  first disagreement: {mism[0]['case'][:200]}\n    impl : {mism[0]['impl'][:200]}\n    model: {mism[0]['model'][:200]}\n    {mism[0]['detail']}")
